@@ -712,7 +712,7 @@ func (C20) Oracle(ops, impl, model []string) string {
 		}
 		switch f[0] {
 		case "b.run":
-			if msg := c20BatcherOracle(kv, out); msg != "" {
+			if msg := c20BatcherOracle(kv, out, strings.HasPrefix(impl[i], "~")); msg != "" {
 				return fmt.Sprintf("op %d: %s (%s)", i, msg, out)
 			}
 		case "wb.run", "rb.run":
@@ -744,7 +744,7 @@ func (C20) Oracle(ops, impl, model []string) string {
 	return ""
 }
 
-func c20BatcherOracle(kv map[string]string, out string) string {
+func c20BatcherOracle(kv map[string]string, out string, unreliable bool) string {
 	maxReq, _ := strconv.Atoi(kv["maxreq"])
 	maxBytes, _ := strconv.Atoi(kv["maxbytes"])
 	sizes := map[string]int{}
@@ -802,6 +802,55 @@ func c20BatcherOracle(kv map[string]string, out string) string {
 			}
 			if maxBytes > 0 && total > maxBytes && len(ids) > 1 {
 				return fmt.Sprintf("a batch of %d bytes exceeds the limit %d", total, maxBytes)
+			}
+		}
+	}
+	// linger bound: a call submitted before an idle period (longer than the linger time, batcher open) is
+	// executed by the end of it, in a batch without any call submitted after the idle period
+	if kv["linger"] != "0" && !unreliable {
+		epoch := 0
+		closed := false
+		epochOf := map[string]int{}
+		mustRun := map[string]bool{}
+		var pending []string
+		for _, ev := range strings.Split(kv["ev"], ",") {
+			switch {
+			case ev == "t":
+				if !closed {
+					for _, id := range pending {
+						mustRun[id] = true
+					}
+				}
+				pending = nil
+				epoch++
+			case ev == "x":
+				closed = true
+			case strings.HasPrefix(ev, "c"):
+				id := strings.Split(ev[1:], ":")[0]
+				epochOf[id] = epoch
+				if !closed {
+					pending = append(pending, id)
+				}
+			}
+		}
+		batchOf := map[string][]string{}
+		if bs != "" {
+			for _, b := range strings.Split(bs, "|") {
+				ids := strings.Split(b, "+")
+				for _, id := range ids {
+					batchOf[id] = ids
+				}
+			}
+		}
+		for id := range mustRun {
+			b, ok := batchOf[id]
+			if !ok {
+				return "call " + id + " was still waiting after an idle period longer than the linger time"
+			}
+			for _, o := range b {
+				if epochOf[o] > epochOf[id] {
+					return "call " + id + " waited for call " + o + " across an idle period longer than the linger time"
+				}
 			}
 		}
 	}
